@@ -19,6 +19,14 @@ Streams (domain `lh`, see ocaml/drv_lh.ml for the line formats):
      the text at a scripted byte offset 0..7 from an 8-aligned base (@off; the lookups after each
      step rotate through all offsets; exact-size blocks, overwritten and freed after the call), key
      lengths sweep 0..40 with pairwise distinct bytes, every lookup entry point (op g);
+     refused operations are refused in every state and change nothing: self-insertion
+     add / add_ex (obj, k, obj) for present and absent keys, every legal flag word, after every add of
+     a filling object (every fill level, growth thresholds included) and sprinkled into all other
+     histories, observing the return value, the typed member dump and the reference counts of obj
+     and of the old value (an extra reference makes its survival observable); deletion of absent
+     keys; get / get_ex on NULL, on non-objects and with a NULL result pointer.  Not covered because
+     json-c documents no refusal there: a NULL key (undefined) and add / del / length on a
+     non-object (assert);
   H  the string hash functions themselves on the same bytes at the 8 offsets and in a heap duplicate;
   L  the load-factor expression `count >= size * 0.66` against the model's binary64 emulation.
 
@@ -493,6 +501,61 @@ def gen_keybytes(rng, tier):
     return out
 
 
+def gen_refused(rng, tier):
+    """refused operations are refused in every state and change nothing: after EVERY add of a
+    filling object (so at every fill level, in particular when count >= 0.66*size and the next
+    insertion would grow the table) self-insertion add(obj, k, obj) under a present key and under
+    an absent key, with every legal flag word (default, CONSTANT_KEY; KEY_IS_NEW only for absent
+    keys); deletion of absent keys; lookups on NULL / non-objects; with tombstones in between"""
+    out = []
+    n = 70 if tier == "quick" else 900
+    for ci in range(n):
+        hsel = rng.choice([0, 1, 2])
+        nk = rng.choice([4, 7, 12, 20, 30])
+        keys, used = [], set()
+        while len(keys) < nk:
+            k = rand_key(rng, used)
+            used.add(k); keys.append(k)
+        size = rng.choice([1, 2, 3, 4, 5, 8, 16, 16])
+        ktoks = []
+        for k in keys:
+            hx = k.encode("latin-1").hex() or "-"
+            if hsel == 2:
+                hx += "@%d" % rng.choice([5, 5, size - 1, rng.randrange(1 << 32)])
+            ktoks.append(hx)
+        ops = []
+        live = []
+        val = 0
+        order = list(range(nk))
+        rng.shuffle(order)
+        fill_to = rng.randint(max(2, nk // 2), nk - 1)        # at least one key stays absent
+        for k in order[:fill_to]:
+            val += 1
+            ops.append("a%d,%s,%d" % (k, "n" if rng.random() < 0.1 else str(val), rng.choice([0, 0, 2])))
+            live.append(k)
+            absent = [j for j in range(nk) if j not in live]
+            # present key: default / CONSTANT_KEY (KEY_IS_NEW is not legal there)
+            ops.append("s%d,%d" % (rng.choice(live), rng.choice([0, 0, 2])))
+            if rng.random() < 0.5:
+                ops.append("s%d,%d" % (live[-1], rng.choice([0, 2])))
+            # absent key: all four flag words
+            ops.append("s%d,%d" % (rng.choice(absent), rng.choice([0, 1, 2, 3])))
+            r = rng.random()
+            if r < 0.25:
+                ops.append("d%d" % rng.choice(absent))
+            elif r < 0.4:
+                ops.append("q%d" % rng.randrange(nk))
+            elif r < 0.55 and len(live) > 1:
+                j = live.pop(rng.randrange(len(live)))        # a tombstone; the key is absent again
+                ops.append("d%d" % j)
+                ops.append("s%d,%d" % (j, rng.choice([0, 1, 2, 3])))
+            elif r < 0.65:
+                val += 1
+                ops.append("a%d,%d,0" % (rng.choice(live), val))   # a legitimate replace still works
+        out.append(("lh B %d %d 0 %s %s" % (hsel, size, ",".join(ktoks), ";".join(ops)), {"kind": "B-refused"}))
+    return out
+
+
 def gen_hash(rng, tier):
     """the direct hash oracle: both string hashes on the same bytes at all 8 offsets (+ a heap
     duplicate): lengths 0..40 each, longer keys sampled; distinct bytes, any value 1..255"""
@@ -517,11 +580,17 @@ def add_offsets(cases, orng):
         nk = len(p[5].split(","))
         ops = []
         for op in p[6].split(";"):
-            if op[0] in "ad" and "@" not in op:
+            if op[0] in "adsq" and "@" not in op:
                 op += "@%d" % orng.randrange(8)
             ops.append(op)
-            if orng.random() < 0.08:
+            r = orng.random()
+            if r < 0.08:
                 ops.append("g%d@%d" % (orng.randrange(nk), orng.randrange(8)))
+            elif r < 0.12:
+                # a refused operation anywhere in any history (flag words legal for present and absent keys)
+                ops.append("s%d,%d@%d" % (orng.randrange(nk), orng.choice([0, 2]), orng.randrange(8)))
+            elif r < 0.13:
+                ops.append("q%d@%d" % (orng.randrange(nk), orng.randrange(8)))
         res.append((" ".join(p[:6] + [";".join(ops)]), meta))
     return res
 
@@ -541,7 +610,8 @@ def gen_l(rng, tier):
 def gen(rng, tier):
     import random as _random
     cases = (gen_l(rng, tier) + gen_env(rng, tier) + gen_fdel(rng, tier) + gen_exhaustive(rng, tier)
-             + gen_churn_a(rng, tier) + gen_b(rng, tier) + gen_keybytes(rng, tier) + gen_hash(rng, tier))
+             + gen_churn_a(rng, tier) + gen_b(rng, tier) + gen_keybytes(rng, tier) + gen_hash(rng, tier)
+             + gen_refused(rng, tier))
     return add_offsets(cases, _random.Random(rng.random()))
 
 
@@ -556,6 +626,10 @@ def plist(tok, fields):
 def oracle(line, meta, impl):
     if "CRASH" in impl:
         return ("crash", "implementation crashed or did not terminate: " + impl[-80:])
+    if "SELFREF" in impl:
+        st = impl.split(" | ")[-1]
+        return ("refused-op-changed-state", "self-insertion add(obj, key, obj) was not refused: the object now holds itself "
+                "(return value : refcount change of obj : refcount change of the old value = %s)" % st.split(" ")[0])
     if impl == "MISSING":
         return ("crash", "no output for this case (the driver died)")
     parts = line.split(" ")
@@ -645,6 +719,21 @@ def oracle(line, meta, impl):
                     return ("foreach-delete", "delete-while-iterating visited %s, expected %s at op %d (%s)" % (ret, want, si, op))
                 for k in ks:
                     d.pop(k, None)
+            elif c == "s":
+                # add / add_ex (obj, key, obj): refused in every state, nothing changes - not the members
+                # (checked below as after every step), not the reference counts of obj or of the old value
+                f = body.split(",")
+                k, flags = int(f[0]), int(f[1])
+                if (flags & 1) and k in d:
+                    return None                      # KEY_IS_NEW on a present key: outside the property
+                if ret != "-1:0:0":
+                    return ("refused-op-changed-state", "self-insertion under %s key %d (flags %d) at op %d: return value : refcount "
+                            "change of obj : of the old value = %s, expected -1:0:0" % ("present" if k in d else "absent", k, flags, si, ret))
+            elif c == "q":
+                k = int(body)
+                want = "0:0:0:%d:-:-:-" % (1 if k in d else 0)
+                if ret != want:
+                    return ("ret", "lookups on NULL / non-objects / with NULL result pointer gave %s, expected %s at op %d" % (ret, want, si))
             elif c == "g":
                 k = int(body)
                 if ret.startswith("GETDIFF"):
@@ -744,7 +833,7 @@ def search(rng, broken_lines):
         if p[1] == "A":
             for size in range(1, 9):
                 extra.append((" ".join(p[:2] + [str(size)] + p[3:]), {"kind": "search"}))
-    extra += gen_keybytes(rng, "quick") + gen_hash(rng, "quick") + gen_env(rng, "quick") + gen_fdel(rng, "quick") + gen_churn_a(rng, "quick") + gen_b(rng, "quick") + gen_exhaustive(rng, "quick")[:6000]
+    extra += gen_refused(rng, "quick") + gen_keybytes(rng, "quick") + gen_hash(rng, "quick") + gen_env(rng, "quick") + gen_fdel(rng, "quick") + gen_churn_a(rng, "quick") + gen_b(rng, "quick") + gen_exhaustive(rng, "quick")[:6000]
     return extra
 
 
